@@ -202,6 +202,9 @@ func (e *Env) seedCorpus(emit func(seedCase)) {
 	for k := 0; k < n; k++ {
 		em(g.Compat(r, 1+r.Intn(10)), g.Compat(r, r.Intn(10)), "compatibility")
 		em(g.Reordering(r, 2+r.Intn(8)), g.Reordering(r, 2+r.Intn(8)), "reordering-marks")
+		if k%4 == 0 { // runs up to the stream-safe limit of 30 non-starters (31 and more is finding D3)
+			em(g.Reordering(r, 18+r.Intn(13)), g.Reordering(r, 18+r.Intn(13)), "long-mark-run")
+		}
 		lead := &builder{g: g}
 		for i := 0; i <= r.Intn(6); i++ {
 			lead.add(g.pick(r, g.marks))
